@@ -165,7 +165,7 @@ def planRewrite (metadataLen dataOffset : Nat) : Except PErr (Nat × Option Int)
     let gap := dataOffset - metadataLen
     if gap = 0 then .ok (0, none)
     else if padHeaderSize ≤ gap ∧ gap ≤ maxPadSize ∧ gap ≤ metadataLen then .ok (gap, none)
-    else if gap ≤ 2147483647 then .ok (0, some (-(gap : Int)))   -- try_into::<i32>().and_then(checked_neg)
+    else if gap ≤ 2147483648 then .ok (0, some (-(gap : Int)))   -- i64::try_from(gap).and_then(|d| i32::try_from(-d)): -2^31 fits
     else .error .unsupportedBoxLayout
   else
     let fwd := metadataLen - dataOffset
